@@ -59,7 +59,7 @@ def run(ctx):
         if rep["dev"]:
             key = "dev:" + rep["dev"]
         else:
-            key = "%s|%s|%s|%s" % (rep["what"], ev.get("tool"), mc, json.dumps(c["choice"], sort_keys=True) if expect == "valid" and not m else "at%s" % (m or {}).get("at"))
+            key = "%s|%s|%s|%s" % (rep["what"], ev.get("tool"), mc, json.dumps(c["choice"], sort_keys=True) if expect == "valid" and not m else "at%s%s" % ((m or {}).get("at"), (m or {}).get("pos", "")))
         err = res[(ev["tag"], ev["tool"])][3] if "tool" in ev else ""
         ctx.violation(key, "%s: %s on %s input (%s): rc %s, %d diagnostics, %s files" % (
             rep["what"], ev.get("tool"), expect, mc, ev.get("rc"), len(ev.get("diags", [])), ev.get("nfiles")),
